@@ -12,6 +12,22 @@ use std::sync::atomic::{AtomicU64, Ordering};
 
 const TL: [f64; 9] = [0.0, 0.4, 0.5, 1.0, 2.5, 7.0, 30.0, 100.49, 2999.0];
 
+/// second lattice, for duration models with half-integer means whose sums are integers (2.5 + 2.5 = 5): a known end
+/// that is *exactly* the sum of the unrounded means
+const TL2: [f64; 5] = [0.0, 2.5, 4.0, 5.0, 10.0];
+
+fn annotations_on(tl: &[f64]) -> Vec<(f64, f64)> {
+    let mut ann = vec![(-1.0, -1.0)];
+    for &s in tl {
+        ann.push((s, -1.0));
+        ann.push((-1.0, s));
+        for &e in tl {
+            ann.push((s, e));
+        }
+    }
+    ann
+}
+
 fn annotations() -> Vec<(f64, f64)> {
     let mut ann = vec![(-1.0, -1.0)];
     for &s in &TL {
@@ -90,16 +106,19 @@ pub fn check_alignment(times_in: &[(f64, f64)], d: &[usize], params: &[MeanVari]
 
 pub fn run(tier: Tier) -> i32 {
     let rep = Report::new("C09", tier, "model_checking");
-    rep.set_rule("SCOPE: full product of per-label annotations {none, start only, end only, both} with times from {0,.4,.5,1,2.5,7,30,100.49,2999} frames over utterances of 1..N labels x state counts, through the real Labels::new + DurationEstimator::create_with_alignment; end-to-end string form on V0 and a generated voice (6 rate/period cells, speeds 1, 0.5 and 3 where every label has a known end); distinct = (annotation vector, nstate); non-trivial = at least one label with a known end");
+    rep.set_rule("SCOPE: full product of per-label annotations {none, start only, end only, both} with times from {0,.4,.5,1,2.5,7,30,100.49,2999} frames over utterances of 1..N labels x state counts (and, for duration models with half-integer means, times {0,2.5,4,5,10} over 1..2 labels), through the real Labels::new + DurationEstimator::create_with_alignment; end-to-end string form on V0 and a generated voice (6 rate/period cells, speeds 1, 0.5 and 3 where every label has a known end); distinct = (annotation vector, nstate); non-trivial = at least one label with a known end");
     rep.assume("times are on the 9-point frame lattice; utterances have at most 3 (quick) / 4 (thorough) labels in the exhaustive part");
-    let ann = annotations();
+    let ann1 = annotations();
+    let ann2 = annotations_on(&TL2);
     let lab = labels::parse(&labels::corpus()[1]);
-    let means = [0.2, 1.5, 10.0, 0.5, 60.0];
+    let means1 = [0.2, 1.5, 10.0, 0.5, 60.0];
+    let means2 = [2.5, 2.5, 1.5, 3.5, 0.5];
     let max_labels = 3usize;
     let nstates: &[usize] = tier.pick(&[1, 2, 3], &[1, 2, 3, 5]);
     let nontriv = AtomicU64::new(0);
     let trailing = AtomicU64::new(0);
     let infeasible = AtomicU64::new(0);
+    for (ann, means, max_labels) in [(&ann1, &means1, max_labels), (&ann2, &means2, 2usize)] {
     for nl in 1..=max_labels {
         for &ns in nstates {
             let params: Vec<MeanVari> = (0..nl * ns).map(|i| MeanVari(means[i % means.len()], 1.0 + (i % 2) as f64)).collect();
@@ -176,16 +195,18 @@ pub fn run(tier: Tier) -> i32 {
                 rep.eval(1);
                 nontriv.fetch_add(1, Ordering::Relaxed);
                 match r {
-                    Err(p) => rep.violation(format!("panic@{}", site_of(&p)), p, json!({"times_frames": times, "nstate": ns})),
+                    Err(p) => rep.violation(format!("panic@{}", site_of(&p)), p, json!({"times_frames": times, "nstate": ns, "means": means.to_vec()})),
                     Ok(d) => {
                         if let Err((k, what)) = check_alignment(&times, &d, &params, ns) {
-                            rep.violation(k, format!("{} :: times(frames)={:?} nstate={} durations={:?}", what, times, ns, d), json!({"times_frames": times, "nstate": ns}));
+                            rep.violation(k, format!("{} :: times(frames)={:?} nstate={} durations={:?}", what, times, ns, d), json!({"times_frames": times, "nstate": ns, "means": means.to_vec()}));
                         }
                     }
                 }
             });
         }
     }
+    }
+    let ann = &ann1;
     // end-to-end: string form "s e label" in 100 ns units through Engine::synthesize, unit conversion for several (rate, fperiod)
     let corpus = labels::corpus();
     let v0 = jbonsai::Engine::load(&[BUNDLED]).expect("bundled");
@@ -295,7 +316,7 @@ pub fn run(tier: Tier) -> i32 {
 pub fn replay(v: &serde_json::Value) -> i32 {
     let times: Vec<(f64, f64)> = v["times_frames"].as_array().cloned().unwrap_or_default().iter().map(|x| (x[0].as_f64().unwrap_or(-1.0), x[1].as_f64().unwrap_or(-1.0))).collect();
     let ns = v["nstate"].as_u64().unwrap_or(1) as usize;
-    let means = [0.2, 1.5, 10.0, 0.5, 60.0];
+    let means: Vec<f64> = v["means"].as_array().map(|a| a.iter().filter_map(|x| x.as_f64()).collect()).filter(|m: &Vec<f64>| !m.is_empty()).unwrap_or_else(|| vec![0.2, 1.5, 10.0, 0.5, 60.0]);
     let params: Vec<MeanVari> = match v["params"].as_array() {
         Some(p) => p.iter().map(|x| MeanVari(x[0].as_f64().unwrap_or(1.0), x[1].as_f64().unwrap_or(1.0))).collect(),
         None => (0..times.len() * ns).map(|i| MeanVari(means[i % means.len()], 1.0 + (i % 2) as f64)).collect(),
